@@ -1,6 +1,7 @@
 (* C11 - The soft alignment is a minimum-disorder cover. *)
-From Coq Require Import List Arith ZArith.
+From Coq Require Import String List Arith ZArith.
 From PGA Require Import Align.Tuples Align.Cover Align.Inst Align.CoverProofs Align.PartProofs Align.CandProofs Align.OptProofs.
+From PGAprops Require Import IlpGen.
 Import ListNotations.
 
 (* the constraint A x >= 1 is exactly cover-hood of the decoded selection, made of well-formed candidates *)
@@ -44,3 +45,23 @@ Example C11_example :
   (exists l, opt_cover ex3 (candidates ex3) = Some (2%Z, l)) /\ (exists l, opt_partition ex3 (candidates ex3) = Some (6%Z, l)) /\
   no_better false ex3 (candidates ex3) 2 = true /\ is_coverb [1;2] [[0;0];[0;1]] = true /\ is_partitionb [1;2] [[0;0];[0;1]] = false.
 Proof. repeat split; try (eexists; vm_compute; reflexivity); vm_compute; reflexivity. Qed.
+
+(* ---------------------------------------------------------------------------------------------------------------------------------
+   Tie to the source (re-proved on every run against genprops/IlpGen.v): the program get_best_soft_alignment hands to the solver - 0/1 variables,
+   objective disorders . x, A x >= 1 in both branches, integer solvers in both branches, the same candidates, matrix and decoding as the best
+   alignment. *)
+Theorem C11_src_program :
+  soft_ilp_src =
+  [("guard"%string, "len(self.annotators) >= 2 and self"%string);
+   ("candidates"%string, "dissimilarity.valid_alignments(self)"%string);
+   ("matrix"%string, "build_A(possible_unitary_alignments, sizes)"%string);
+   ("variable"%string, "cp.Variable(shape=(n,), boolean=True)"%string);
+   ("primary"%string, "import cylp; cp.Problem(cp.Minimize(disorders.T @ x), [A @ x >= 1]).solve(solver=cp.CBC)"%string);
+   ("fallback_when"%string, "(ImportError, cp.SolverError)"%string);
+   ("fallback"%string, "cp.Problem(cp.Minimize(disorders.T @ x), [A @ x >= 1]).solve(solver=cp.GLPK_MI)"%string);
+   ("decode"%string, "np.where(x.value > 0.9)"%string);
+   ("chosen"%string, "possible_unitary_alignments[chosen_alignments_ids] | disorders[chosen_alignments_ids]"%string);
+   ("units"%string, "u_align_tuple = []; for annotator_id, unit_id in enumerate(alignment): annotator, units = self._annotations.peekitem(annotator_id) try: unit = units[unit_id] u_align_tuple.append((annotator, unit)) except IndexError: u_align_tuple.append((annotator, None)); unitary_alignment = UnitaryAlignment(list(u_align_tuple)); unitary_alignment.disorder = alignments_disorders[alignment_id]; set_unitary_alignements.append(unitary_alignment)"%string);
+   ("result"%string, "return SoftAlignment(set_unitary_alignements, continuum=self, check_validity=False, disorder=np.sum(alignments_disorders) / self.avg_num_annotations_per_annotator)"%string);
+   ("order"%string, "Assert; sizes; For; (disorders, possible_unitary_alignments); n; A; x; Try; Assert; (chosen_alignments_ids,); chosen_alignments; alignments_disorders; ImportFrom; set_unitary_alignements; For; Return"%string)].
+Proof. reflexivity. Qed.
